@@ -3687,6 +3687,13 @@ namespace bloch::runtime {
         // reallocate the vector underneath it.
         auto dying = std::move(m_env.back());
         m_env.pop_back();
+        // Release the variables in reverse order of declaration, not in hash order.
+        std::vector<VarEntry*> order;
+        order.reserve(dying.size());
+        for (auto& kv : dying) order.push_back(&kv.second);
+        std::sort(order.begin(), order.end(),
+                  [](const VarEntry* a, const VarEntry* b) { return a->seq > b->seq; });
+        for (VarEntry* entry : order) entry->value = Value{};
     }
 
     void RuntimeEvaluator::flushEchoes() {
